@@ -584,7 +584,10 @@ impl RobotBody {
 
     fn check_required(&self, i: usize, j: usize, skip: &HashSet<usize>,
                       safety: &SafetyDistances) -> bool {
-        !skip.contains(&i) && !skip.contains(&j) &&
+        // A pair may only be skipped when neither of its members moved. Environment
+        // objects and the base never move; everything else moved unless listed in skip.
+        let unmoved = |k: usize| skip.contains(&k) || k >= ENV_START_IDX || k == J_BASE;
+        !(unmoved(i) && unmoved(j)) &&
             safety.min_distance(i as u16, j as u16) > &NEVER_COLLIDES
     }    
 }
